@@ -16,6 +16,7 @@ type Mutex struct{ locked bool }
 func (m *Mutex) Lock() {
 	vrt.Op(func() bool { return !m.locked }, 0, "Mutex.Lock")
 	m.locked = true
+	vrt.AcquiredPoint("Mutex.held")
 }
 func (m *Mutex) TryLock() bool {
 	vrt.Op(nil, 0, "Mutex.TryLock")
@@ -42,6 +43,7 @@ type RWMutex struct {
 func (m *RWMutex) Lock() {
 	vrt.Op(func() bool { return !m.writer && m.readers == 0 }, 0, "RWMutex.Lock")
 	m.writer = true
+	vrt.AcquiredPoint("RWMutex.held")
 }
 func (m *RWMutex) Unlock() {
 	if !m.writer && !vrt.Aborting() {
@@ -54,6 +56,7 @@ func (m *RWMutex) Unlock() {
 func (m *RWMutex) RLock() {
 	vrt.Op(func() bool { return !m.writer }, 0, "RWMutex.RLock")
 	m.readers++
+	vrt.AcquiredPoint("RWMutex.rheld")
 }
 func (m *RWMutex) RUnlock() {
 	if m.readers <= 0 && !vrt.Aborting() {
